@@ -14,7 +14,10 @@ RULE = ("random histories (quick 30 steps, thorough up to 80) of: fresh vectors 
         "handles, gc.collect() at random points and bursts of short-lived same-size vectors/tuples to provoke identity reuse. "
         "Every write attempt is judged: refused iff (non-empty and another LIVE object `is`-shares the storage tuple); accepted writes "
         "must leave every other live object's contents unchanged; the Lean registry model, fed with the real storage identities, "
-        "must predict every accept/refuse. non-trivial = the history contains ≥1 judged write after at least one drop or storage "
+        "must predict every accept/refuse. Plus a unit family on a private _AliasTracker instance: register / unregister / "
+        "check_writable called directly with identities 1–4 reused at will and objects killed at chosen points, judged against "
+        "'refuse iff ≥2 live objects currently registered under the identity' and against the model functions (non-trivial = a "
+        "refusal and a check after a kill). non-trivial (histories) = the history contains ≥1 judged write after at least one drop or storage "
         "swap; distinct by the recorded event list")
 ASSUMPTIONS = ["liveness is refcount-driven (CPython); all live Vector objects of the process are visible to gc.get_objects()",
                "storage identity = id() of the tuple; the empty tuple is identity 0 (never checked by the library)",
@@ -28,7 +31,8 @@ LEVEL_TEXT = ("Proof over a model of alias_tracker.py and of the unregister/swap
               "write is refused iff another live object uses the same non-empty storage (refused_iff_shared, refused_only_if_shared); an "
               "object sharing with no live object is always writable whatever happened before (unshared_always_writable); a refused write "
               "changes nothing (refused_changes_nothing); an accepted write never changes what another live object shows provided the "
-              "interpreter does not reissue the identity of storage still in use (no_leak). Tied to the code by trace validation in which "
+              "interpreter does not reissue the identity of storage still in use (no_leak); the tracker class driven directly with arbitrary "
+              "identities refines 'the set of registered (object, identity) pairs' (tracker_refines_spec). Tied to the code by trace validation in which "
               "the model is fed the interpreter's REAL tuple identities and must predict every accept/refuse of the real library.")
 LEVEL_NOTE = ("Trusted: Lean kernel + standard axioms; the snapshot/diff code that turns real histories into model events; CPython's "
               "refcounting and weak-reference semantics. The runtime part no model can exhibit — which identity CPython recycles — is "
@@ -401,22 +405,80 @@ def run_history(spec):
     return steps, events, stats
 
 
+class _Obj:
+    __slots__ = ("__weakref__",)
+
+
+def run_tracker(spec):
+    """unit-level: a private _AliasTracker instance, identities 1..4 chosen by the harness, objects killed at chosen points"""
+    from serif import alias_tracker as at
+    cls = getattr(at, "_AliasTracker", None)
+    if cls is None or not all(callable(getattr(cls, m, None)) for m in ("register", "unregister", "check_writable")):
+        return None
+    err = getattr(at, "AliasError", None)
+    tr = cls()
+    rng = random.Random(spec["seed"])
+    ops, objs, live = [], [], []
+    stats = {"checks": 0, "refused": 0, "after_kill": 0}
+    killed = False
+    for _ in range(spec["n"]):
+        r = rng.random()
+        if r < 0.15 or not live:
+            objs.append(_Obj()); live.append(len(objs) - 1)
+            ops.append({"op": "new"})
+            continue
+        o = rng.choice(live)
+        s = rng.choice((1, 1, 2, 2, 3, 4))
+        if r < 0.45:
+            tr.register(objs[o], s); ops.append({"op": "reg", "o": o, "s": s})
+        elif r < 0.58:
+            tr.unregister(objs[o], s); ops.append({"op": "unreg", "o": o, "s": s})
+        elif r < 0.72:
+            objs[o] = None; live.remove(o); killed = True
+            ops.append({"op": "kill", "o": o})
+        else:
+            refused = False
+            try:
+                tr.check_writable(objs[o], s)
+            except Exception as e:
+                if err is not None and isinstance(e, err):
+                    refused = True
+                else:
+                    raise
+            ops.append({"op": "check", "o": o, "s": s, "refused": refused})
+            stats["checks"] += 1; stats["refused"] += refused; stats["after_kill"] += killed
+    return ops, stats
+
+
 def generate(rng, tier):
     n = 1200 if tier == "quick" else 40000
+    for i in range(600 if tier == "quick" else 20000):
+        yield {"fam": "tracker", "seed": rng.randrange(1 << 30), "n": 40}
     for i in range(n):
         yield {"fam": "history", "seed": rng.randrange(1 << 30), "nsteps": 30 if tier == "quick" or i % 3 else 80}
 
 
 def execute(spec):
+    if spec["fam"] == "tracker":
+        r = run_tracker(spec)
+        if r is None:
+            return {"skip": "alias_tracker._AliasTracker with register/unregister/check_writable not found"}
+        return {"fam": "tracker", "case": {"ops": r[0]}, "impl": r[1]}
     steps, events, stats = run_history(spec)
     return {"fam": "history", "case": {"events": events}, "impl": stats, "_steps": steps}
 
 
 def nontrivial(spec, wire):
+    if spec["fam"] == "tracker":
+        return wire["impl"]["after_kill"] >= 1 and wire["impl"]["refused"] >= 1
     return wire["impl"]["after_churn"] >= 1
 
 
 def histogram(spec, wire):
+    if spec["fam"] == "tracker":
+        s = wire["impl"]
+        return ["tracker-op:" + o["op"] for o in wire["case"]["ops"]] + ["tracker-check:refused"] * s["refused"] + \
+            ["tracker-check:accepted"] * (s["checks"] - s["refused"])
     out = ["event:" + e["e"] for e in wire["case"]["events"]]
     s = wire["impl"]
     out += ["write:refused"] * s["refused"] + ["write:accepted"] * (s["writes"] - s["refused"]) + ["identity-reuse-observed"] * s["reuse"]
@@ -424,6 +486,10 @@ def histogram(spec, wire):
 
 
 def shrink(spec):
+    if spec["fam"] == "tracker":
+        for n in range(spec["n"] - 1, 0, -1):
+            yield dict(spec, n=n)
+        return
     if "steps" not in spec:
         steps, _, _ = run_history(spec)
         yield {"fam": "history", "steps": steps}
@@ -434,5 +500,8 @@ def shrink(spec):
 
 
 def snippet(spec):
+    if spec["fam"] == "tracker":
+        r = run_tracker(spec)
+        return "# direct calls on a private serif.alias_tracker._AliasTracker(); ops:\n" + "\n".join("# " + repr(o) for o in (r[0] if r else []))
     steps = spec.get("steps") or run_history(spec)[0]
     return "# history over 6 slots and a pool of caller tuples; steps:\n" + "\n".join("# " + repr(s) for s in steps)
